@@ -597,9 +597,13 @@ func vfC05Run(t *testing.T, cs vfC05Case, out *vfC05Out, isKnown func(string) bo
 			return "the bystander connection was closed; frames: " + vfRenderFrames(by.Frames())
 		}
 		after := vfC05Snapshot(w, allChans, extra)
-		if cs.MapPres && closedWhileParked && (cs.Gate == vfC05GMapPresence || cs.Gate == vfC05GPublishJoin) {
-			// The operation was parked AFTER its commit, inside publishJoinAndPresence; close() already ran its
-			// removeMapPresence, then the late MapPublish re-creates the client-presence key of the dead connection.
+		postCommitOverlap := (closedWhileParked && (cs.Gate == vfC05GMapPresence || cs.Gate == vfC05GPublishJoin)) ||
+			(cs.Op == vfC05OpConnect && cs.Cause == vfC05CWriteErr)
+		if cs.MapPres && postCommitOverlap {
+			// close() overlapped publishJoinAndPresence, which runs AFTER the commit: either the operation was parked
+			// inside it, or the failing connect-reply write spawned close() right before connectCmd reached it
+			// (scheduler-dependent). close() already ran its removeMapPresence, then the late MapPublish re-creates
+			// the client-presence key of the dead connection.
 			key := "C05:map-client-presence-published-after-close"
 			var kept []string
 			hit := false
